@@ -267,13 +267,14 @@ func parseStrace(text string) *straceTrace {
 // ---------- projection onto mutating operations inside the tree ----------
 
 type c05Op struct {
-	Kind string // o w c r m u (model operations)   x (a mutating call the model does not have)
-	Fd   int    // canonical descriptor number: lowest free among the write descriptors in the tree
-	A, B string // paths relative to the tree root (absolute when outside)
-	Data string
-	Mode int
-	Res  string // "ok", an errno name, "?" = the process was killed before the call took effect
-	Desc string
+	Kind     string // o w c r m u (model operations)   x (a mutating call the model does not have)
+	Fd       int    // canonical descriptor number: lowest free among the write descriptors in the tree
+	A, B     string // paths relative to the tree root (absolute when outside)
+	Data     string
+	Mode     int
+	Res      string // "ok", an errno name, "?" = the process was killed before the call took effect
+	Desc     string
+	OpenLike bool // Kind x only: an open for writing whose flags are not the model's
 	// how to address this call for `strace -P <path> -e inject=<Sys>:...:when=<Nth>`:
 	// strace counts per thread and per syscall name, and Go moves the main
 	// goroutine between threads, so a plain count is useless; with -P only the
@@ -500,18 +501,18 @@ func projectTrace(tr *straceTrace, root string) []c05Op {
 			}
 			if mut && fd.InTree {
 				fd.Canon = canon()
-				plain := fl["O_WRONLY"] && fl["O_CREAT"] && fl["O_TRUNC"] && c.Name != "openat2"
-				for f := range fl {
-					switch f {
-					case "O_WRONLY", "O_CREAT", "O_TRUNC", "O_CLOEXEC", "O_LARGEFILE", "O_NOCTTY":
-					default:
-						plain = false
-					}
-				}
+				// a save's open is recognised by what it does, not by its exact flags:
+				// creates or truncates, for writing (O_WRONLY or O_RDWR); extra flags
+				// such as O_CLOEXEC, O_LARGEFILE, O_NOFOLLOW do not matter.  Flags that
+				// change where the bytes go or whether the old file survives do.
+				plain := wr && fl["O_CREAT"] && fl["O_TRUNC"] &&
+					!fl["O_APPEND"] && !fl["O_EXCL"] && !fl["O_TMPFILE"] && !fl["O_PATH"] && !fl["O_DIRECTORY"]
 				if plain {
 					add(c05Op{Kind: "o", Fd: fd.Canon, A: rel(p), Mode: parseOctal(mode)})
 				} else {
-					add(c05Op{Kind: "x", Desc: c.Name + "(" + rel(p) + "," + flags + ")"})
+					// an open for writing of another shape: not the model's Creat, but the
+					// bytes written through it still are a content the program installs
+					add(c05Op{Kind: "x", Fd: fd.Canon, A: rel(p), OpenLike: true, Desc: c.Name + "(" + rel(p) + "," + flags + ")"})
 				}
 			}
 			if n, err := strconv.Atoi(c.Ret); err == nil && n >= 0 {
@@ -736,10 +737,7 @@ func c05Build(name string, variant int, seed uint64, root string) *c05Scenario {
 			s.Args = []string{"-Wall", "-F", "cat/pkg/Makefile"}
 		}
 		s.Expect = func(s *c05Scenario, prog []c05Action, out string) string {
-			if len(prog) < 1 || prog[0].Kind != "S" || prog[0].Path != "cat/pkg/Makefile" {
-				return "no save of cat/pkg/Makefile"
-			}
-			return ""
+			return c05Changed(s, "cat/pkg/Makefile")
 		}
 	case "pkg4":
 		t.Write("cat/pkg/Makefile", c05Makefile(r, 1+r.Intn(4)))
@@ -750,16 +748,7 @@ func c05Build(name string, variant int, seed uint64, root string) *c05Scenario {
 		t.Write("cat/pkg/distinfo", lines("$"+"NetBSD$", "", "BLAKE2s (distfile-1.0.tar.gz) = 12341234", "SHA512 (distfile-1.0.tar.gz) = 12341234",
 			"Size (distfile-1.0.tar.gz) = 12341234 bytes", "SHA1 (patch-file.c) = "+strings.Repeat(Pick(r, []string{"0", "a", "12"}), 40)[:40]))
 		s.Expect = func(s *c05Scenario, prog []c05Action, out string) string {
-			got := map[string]bool{}
-			for _, a := range prog {
-				got[a.Path] = true
-			}
-			for _, f := range []string{"cat/pkg/Makefile", "cat/pkg/PLIST", "cat/pkg/distinfo", "cat/pkg/patches/patch-file.c"} {
-				if !got[f] {
-					return "no save of " + f
-				}
-			}
-			return ""
+			return c05Changed(s, "cat/pkg/Makefile", "cat/pkg/PLIST", "cat/pkg/distinfo", "cat/pkg/patches/patch-file.c")
 		}
 	case "plist-sort":
 		t.Write("cat/pkg/PLIST", c05Plist(r, true, false))
@@ -780,12 +769,10 @@ func c05Build(name string, variant int, seed uint64, root string) *c05Scenario {
 			s.Args = []string{"-Wall", "-F", "cat/pkg", "cat/pkg/DESCR"}
 		}
 		s.Expect = func(s *c05Scenario, prog []c05Action, out string) string {
-			for _, a := range prog {
-				if a.Kind == "M" {
-					return ""
-				}
+			if !strings.Contains(out, "Clearing executable bits") {
+				return "no executable bit was cleared"
 			}
-			return "no chmod"
+			return ""
 		}
 	case "stale-tmp":
 		// a file of the user's that happens to bear the temporary name (known finding)
@@ -799,6 +786,17 @@ func c05Build(name string, variant int, seed uint64, root string) *c05Scenario {
 	s.Old = c05ReadTree(root)
 	s.OldSnap = Snapshot(root)
 	return s
+}
+
+// c05Changed: the complete undisturbed run changed the content of each of the files
+// (decided on the final tree, without any trace); "" = yes.
+func c05Changed(s *c05Scenario, files ...string) string {
+	for _, f := range files {
+		if s.Final[f].Data == s.Old[f].Data {
+			return "the complete run did not change " + f
+		}
+	}
+	return ""
 }
 
 func c05ReadTree(root string) map[string]c05File {
@@ -937,6 +935,22 @@ func c05ProgTokens(prog []c05Action) string {
 	return strings.Join(ss, " ")
 }
 
+// c05MergeWrites joins consecutive successful writes through the same descriptor
+// (and a final failing one) into a single write of the concatenated bytes.
+func c05MergeWrites(ops []c05Op) []c05Op {
+	var out []c05Op
+	for _, o := range ops {
+		if n := len(out); o.Kind == "w" && n > 0 && out[n-1].Kind == "w" && out[n-1].Fd == o.Fd && out[n-1].Res == "ok" {
+			out[n-1].Data += o.Data
+			out[n-1].Res = o.Res
+			out[n-1].Injected = out[n-1].Injected || o.Injected
+			continue
+		}
+		out = append(out, o)
+	}
+	return out
+}
+
 func c05OpTokens(ops []c05Op) string {
 	var ss []string
 	for _, o := range ops {
@@ -982,7 +996,11 @@ func c05ProgOf(ops []c05Op, old map[string]c05File) []c05Action {
 		if o.Res != "ok" {
 			continue
 		}
-		switch o.Kind {
+		kind := o.Kind
+		if kind == "x" && o.OpenLike {
+			kind = "o"
+		}
+		switch kind {
 		case "o":
 			open[o.Fd] = len(prog)
 			prog = append(prog, c05Action{Kind: "S", Path: strings.TrimSuffix(o.A, ".pkglint.tmp")})
@@ -1018,7 +1036,11 @@ func c05CleanSaves(ops []c05Op, from int) []c05Action {
 	open := map[int]*st{}
 	done := map[string]*st{} // tmp path -> written and closed
 	for _, o := range ops[from:] {
-		switch o.Kind {
+		kind := o.Kind
+		if kind == "x" && o.OpenLike {
+			kind = "o"
+		}
+		switch kind {
 		case "o":
 			delete(done, o.A)
 			if o.Res == "ok" {
@@ -1169,15 +1191,21 @@ func (st *c05State) baseline(s *c05Scenario) (*c05Run, []c05Action, bool) {
 	for _, a := range prog {
 		res.Count("action_"+a.Kind, 1)
 	}
+	if len(run.Ops) == 0 && s.Name != "stale-tmp" {
+		// the scenario produced no mutating system call at all: nothing can be checked
+		why := "no mutating system call inside the tree"
+		if s.Expect != nil {
+			why += "; " + s.Expect(s, prog, run.Stdout)
+		}
+		res.Broken = fmt.Sprintf("scenario %s (%s): %s", s.Name, strings.Join(s.Args, " "), why)
+		return nil, nil, false
+	}
 	if s.Expect != nil {
 		if why := s.Expect(s, prog, run.Stdout); why != "" {
-			if ctx.Repo == "/repo" {
-				res.Broken = fmt.Sprintf("scenario %s does not reach its fix sites: %s; ops: %s", s.Name, why, c05OpsString(run.Ops))
-			} else {
-				res.AddViolation(Violation{Key: "C05/coverage/" + s.Name, What: "scenario " + s.Name + " no longer reaches its fix sites: " + why, FoundInput: false,
-					Replay: map[string]any{"broken": "coverage floor of scenario " + s.Name, "scenario": s.Name}})
-			}
-			return run, prog, false
+			// reported, but the kill and fault runs below go on: they judge the
+			// property on real trees, independently of what the scenario was meant to reach
+			res.AddViolation(Violation{Key: "C05/coverage/" + s.Name, What: "scenario " + s.Name + " no longer reaches its fix sites: " + why, FoundInput: false,
+				Replay: map[string]any{"broken": "coverage floor of scenario " + s.Name, "scenario": s.Name, "observed": c05OpsString(run.Ops)}})
 		}
 	}
 	// the complete, undisturbed run is the last crash point: old-or-new, nothing lost
@@ -1239,7 +1267,14 @@ func (st *c05State) baseline(s *c05Scenario) (*c05Run, []c05Action, bool) {
 	}
 	st.evals(1, 1)
 	obs := c05OpTokens(run.Ops)
-	corrOK := model == obs && len(indep) == 0
+	shape := ""
+	for _, o := range run.Ops {
+		if o.Kind == "x" && shape == "" {
+			shape = o.Desc
+		}
+	}
+	// several write() calls through one descriptor are the model's one Write
+	corrOK := model == c05OpTokens(c05MergeWrites(run.Ops)) && len(indep) == 0
 	run.CorrOK = corrOK
 	if !corrOK {
 		what := "observed: " + c05OpsString(run.Ops)
@@ -1249,7 +1284,14 @@ func (st *c05State) baseline(s *c05Scenario) (*c05Run, []c05Action, bool) {
 		rep := st.replayMap(s, "trace", -1, "")
 		rep["broken"] = "correspondence: projected strace trace = Model.FsProto.prog_ops"
 		rep["observed"] = c05OpsString(run.Ops)
-		res.AddViolation(Violation{Key: "C05/correspondence/trace/" + s.Name, FoundInput: false, Size: len(run.Ops),
+		key := "C05/correspondence/trace/" + s.Name
+		if shape != "" {
+			// a mutating system call that has no counterpart in the model
+			key = "C05/correspondence/trace-shape"
+			what = "system call outside the model's vocabulary: " + shape + "; " + what
+			rep["shape"] = shape
+		}
+		res.AddViolation(Violation{Key: key, FoundInput: false, Size: len(run.Ops),
 			What: fmt.Sprintf("scenario %s: the mutating system calls differ from the model's save protocol; %.600s", s.Name, what), Replay: rep})
 	} else {
 		res.Count("trace_equals_model", 1)
@@ -1609,25 +1651,38 @@ func (st *c05State) fault(s *c05Scenario, base *c05Run, prog []c05Action, k int,
 	// 4. the model of the failed action under the same fault: same system calls
 	// with the same results, one ERROR line naming the same path, the same
 	// temporary file left behind, unchanged exit status
+	if !base.CorrOK {
+		return true // the protocol itself differs from the model's: already reported
+	}
 	var diffs []string
 	start := hit
 	for start > 0 && hitOp.Kind != "m" && base.Ops[start].Kind != "o" {
 		start--
 	}
-	local := hit - start
+	// several write() calls are the model's one Write: a failure of a later one is a
+	// failing Write after `short` bytes
+	seg := c05MergeWrites(base.Ops[start : hit+1])
+	local := len(seg) - 1
+	short := 0
+	if hitOp.Kind == "w" {
+		short = len(seg[local].Data) - len(hitOp.Data)
+	}
 	fOld := c05File{Data: "old", Mode: 0o644}
 	var req string
+	wdata := ""
 	if hitOp.Kind == "m" {
 		req = fmt.Sprintf("fault / F %s %s %d U %d / M %s %d / 0 0 %s", hx(failed), hx(fOld.Data), s.Old[failed].Mode, st.umask, hx(failed), s.Old[failed].Mode, errno)
 	} else {
 		data := ""
 		for _, o := range base.Ops[start:] {
 			if o.Kind == "w" {
-				data = o.Data
+				data += o.Data
+			} else if o.Kind != "o" {
 				break
 			}
 		}
-		req = fmt.Sprintf("fault / F %s %s %d U %d / S %s %s / %d 0 %s", hx(failed), hx(fOld.Data), fOld.Mode, st.umask, hx(failed), hx(data), local, errno)
+		wdata = data
+		req = fmt.Sprintf("fault / F %s %s %d U %d / S %s %s / %d %d %s", hx(failed), hx(fOld.Data), fOld.Mode, st.umask, hx(failed), hx(data), local, short, errno)
 	}
 	a, err := c05Oracle1(ctx, req)
 	if err != nil {
@@ -1642,12 +1697,23 @@ func (st *c05State) fault(s *c05Scenario, base *c05Run, prog []c05Action, k int,
 	// the operations of the failed action in the perturbed trace: from `local`
 	// operations before the injected one up to the next open (or the end)
 	var obs []string
-	if inj-local >= 0 {
-		for i := inj - local; i < len(run.Ops); i++ {
-			if i > inj && (run.Ops[i].Kind == "o" || hitOp.Kind == "m") {
+	mrun := c05MergeWrites(run.Ops)
+	minj := 0
+	for i, o := range mrun {
+		if o.Injected {
+			minj = i
+		}
+	}
+	if minj-local >= 0 {
+		for i := minj - local; i < len(mrun); i++ {
+			if i > minj && (mrun[i].Kind == "o" || hitOp.Kind == "m") {
 				break
 			}
-			obs = append(obs, run.Ops[i].Token()+" ="+run.Ops[i].Res)
+			o := mrun[i]
+			if o.Kind == "w" && o.Res != "ok" && strings.HasPrefix(wdata, o.Data) {
+				o.Data = wdata // a failing chunk of several: the model's Write names all the bytes
+			}
+			obs = append(obs, o.Token()+" ="+o.Res)
 		}
 	}
 	if strings.TrimSpace(parts[0]) != strings.Join(obs, " ") {
@@ -1711,9 +1777,14 @@ func c05FailedPath(ops []c05Op, i int) string {
 		return strings.TrimSuffix(o.A, ".pkglint.tmp")
 	case "r":
 		return o.B
+	case "x":
+		if o.OpenLike {
+			return strings.TrimSuffix(o.A, ".pkglint.tmp")
+		}
+		return ""
 	}
 	for j := i - 1; j >= 0; j-- {
-		if ops[j].Kind == "o" && ops[j].Fd == o.Fd {
+		if (ops[j].Kind == "o" || ops[j].OpenLike) && ops[j].Fd == o.Fd {
 			return strings.TrimSuffix(ops[j].A, ".pkglint.tmp")
 		}
 	}
@@ -1782,8 +1853,8 @@ func (st *c05State) scenario(name string, variant int, thorough bool, rng *Rng) 
 	errnos := []string{"ENOSPC", "EIO", "EACCES", "EXDEV"}
 	for k := 0; k < n; k++ {
 		jobs = append(jobs, job{k, ""})
-		if base.Ops[k].Kind == "x" || base.Ops[k].Kind == "u" {
-			continue
+		if base.Ops[k].PPath == "" || base.Ops[k].Nth == 0 {
+			continue // cannot be addressed by path
 		}
 		if thorough {
 			for _, e := range errnos {
@@ -1853,7 +1924,13 @@ func runC05(ctx *Ctx) *Result {
 	res.DistinctNontrivial = dist
 	res.Exhaustive = false
 	get := func(k string) int { v, _ := res.Distribution[k].(int); return v }
-	if ctx.Repo == "/repo" || len(res.Violations) == 0 {
+	others := 0
+	for _, v := range res.Violations {
+		if v.Key != "C05/preexisting-tmp-name" {
+			others++
+		}
+	}
+	if others == 0 {
 		// coverage floors of the check itself
 		switch {
 		case get("crash_points_killed_for_real")*10 < get("crash_points_total")*9:
